@@ -4,7 +4,7 @@ package req
 
 // C07 round 4 — byte-position matrix for the two header-value parsers that live in /repo and have a
 // byte-exact Lean model: the digest challenge parser (digest.go parseChallenge, model
-// Digest.parseChallenge of C20) and the Alt-Svc parser (altsvcutil.ParseHeader, model
+// DigestAuth.parseChallenge of C20) and the Alt-Svc parser (altsvcutil.ParseHeader, model
 // AltSvcParse.parse). One byte — every value 0x00..0xff — is inserted at EVERY offset of typical
 // header values; the class the real function returns is compared with the model.
 
@@ -19,8 +19,11 @@ import (
 
 func TestVerif_C07_digestpos(t *testing.T) {
 	s := verifh.New(t, "C07", "digestpos",
-		"WWW-Authenticate digest challenges (quoted and unquoted parameters, all nine known keys, charset, an unknown key, no parameters) with one byte of every value 0x00..0xff inserted at every offset, and with one byte deleted at every offset; real parseChallenge vs Lean Digest.parseChallenge on the class ok / bad-challenge / charset (+ the parsed realm, nonce, qop, algorithm); a recovered panic is a disagreement; every case non-trivial")
+		"WWW-Authenticate digest challenges (quoted and unquoted parameters, all nine known keys, charset, an unknown key, no parameters) with one byte of every value 0x00..0xff inserted at every offset, and with one byte deleted at every offset; real parseChallenge (the RFC 7235 challenge-list reader) vs Lean DigestAuth.parseChallenge on the class ok / bad-challenge / charset / algorithm / qop (+ the realm, nonce, qop, algorithm of the selected challenge); a recovered panic is a disagreement; every case non-trivial")
 	bases := []string{
+		"Basic realm=\"b\", Digest realm=\"r\", nonce=\"n\", qop=\"auth-int, auth\", algorithm=SHA-256, Digest realm=\"r2\", nonce=\"n2\"",
+		"Digest realm=\"a\\\"b\", nonce=n, algorithm=NOPE, qop=auth",
+		"Newauth tok68==, Digest nonce=\"n\", realm=\"r\", Realm=x",
 		"Digest realm=\"r\", nonce=\"n\", qop=\"auth\", algorithm=MD5, opaque=\"o\"",
 		"Digest realm=r,nonce=n,algorithm=SHA-256-sess,qop=auth-int,userhash=true,stale=false,domain=\"/a /b\"",
 		"Digest realm=\"r\", nonce=\"n\", charset=UTF-8",
@@ -36,6 +39,10 @@ func TestVerif_C07_digestpos(t *testing.T) {
 				ans = "bad"
 			case err == errDigestCharset:
 				ans = "charset"
+			case err == errDigestAlgNotSupported:
+				ans = "alg"
+			case err == errDigestQopNotSupported:
+				ans = "qop"
 			case err != nil:
 				ans = "other-error"
 			case c == nil:
